@@ -3,7 +3,8 @@
     core/util/trans.py trans_ndpt_pseudo_dist, breed/prot/sel/prob/trans.py and breed/prot/sel/transfn.py
     trans_ndpt_to_vec_dist).  Weighted rows: [nth i (weighted wt fmat) []]; larger is better after weighting. *)
 From Coq Require Import Permutation.
-From PV Require Import Lib.Common Model.C19_Pareto Proofs.C19_Pareto Proofs.C19_Order Proofs.C19_Dist Proofs.C19_Norm.
+From PV Require Import Lib.Common Model.C19_Pareto Proofs.C19_Pareto Proofs.C19_Order Proofs.C19_Dist Proofs.C19_Norm
+  Gen.C19_Kernel Proofs.C19_Kernel Proofs.C19_Unit.
 Local Open Scope Q_scope.
 
 (** the while loop ends within npt iterations, for every point set and weight vector (no fuel exhaustion) *)
@@ -199,6 +200,103 @@ Theorem C19_old_sel_documented_roles_refuted : exists mat sign pref,
 Proof. exact old_sel_roles_refuted. Qed.
 Print Assumptions C19_old_sel_documented_roles_refuted.
 
+(** change of unit: expressing objective k of every point of the front in another unit (column k times c_k > 0, however small
+    or large, e.g. 2^-40) changes none of the distances, for all three functions *)
+Theorem C19_unit_invariant : forall m mat c sign pref, rectm m mat -> length c = m -> length sign = m -> Forall (fun a => 0 < a) c ->
+  tres_eq (trans_core (map (fun r => map2 Qmult r c) mat) sign pref) (trans_core mat sign pref) /\
+  tres_eq (trans_sel_prob (map (fun r => map2 Qmult r c) mat) sign pref) (trans_sel_prob mat sign pref) /\
+  tres_eq (trans_sel_fn (map (fun r => map2 Qmult r c) mat) sign pref) (trans_sel_fn mat sign pref).
+Proof. exact unit_invariant_all. Qed.
+Print Assumptions C19_unit_invariant.
+
+(** the same about the common body, for both vectors arbitrary *)
+Theorem C19_unit_invariant_body : forall m mat c mulv lin, rectm m mat -> length c = m -> length mulv = m -> Forall (fun a => 0 < a) c ->
+  tres_eq (trans_body true (map (fun r => map2 Qmult r c) mat) mulv lin) (trans_body true mat mulv lin).
+Proof. exact unit_invariant_lemma. Qed.
+Print Assumptions C19_unit_invariant_body.
+
+(** * the kernel expressions of the CURRENT source
+
+    Gen/C19_Kernel.v is regenerated from pareto.py, pymoo_addon.py and the three transformation files on every run.  The
+    expressions of the source are the operations the model is built from: the weighting, the strict comparison with the pivot,
+    the loop guard, the next pivot index and the whole loop re-assembled from them; the body of [dominates]; and, for each of
+    the three distance transformations, the twelve expressions of its body — assembled in the statement order of the source
+    ([kern_body]) they give the model's result for every matrix and every pair of vectors. *)
+Theorem C19_kernel_is_model :
+  (forall wt r, map2 k_par_weight r wt = wrow wt r) /\
+  (forall q p, existsb (fun b : bool => b) (map2 k_par_better q p) = gt_any q p) /\
+  (forall ix n : nat, k_par_guard (Z.of_nat ix) (Z.of_nat n) = (ix <? n)%nat) /\
+  (forall c : nat, k_par_next (Z.of_nat c) = Z.of_nat (c + 1)) /\
+  (forall wt fmat, kern_pareto_idx wt fmat = pareto_idx wt fmat) /\
+  (forall o1 c1 o2 c2, k_dominates o1 c1 o2 c2 = dominates_m o1 c1 o2 c2) /\
+  tkern_ok K_core /\ tkern_ok K_prob /\ tkern_ok K_fn /\
+  (forall mat minmax pw, tres_eq (kern_core mat minmax pw) (trans_core mat minmax pw)) /\
+  (forall mat obj_wt vec_wt, tres_eq (kern_body K_prob mat obj_wt vec_wt) (trans_sel_prob mat obj_wt vec_wt)) /\
+  (forall mat objfn_wt wt, tres_eq (kern_body K_fn mat objfn_wt wt) (trans_sel_fn mat objfn_wt wt)).
+Proof. exact kernel_is_model. Qed.
+Print Assumptions C19_kernel_is_model.
+
+(** the zero-range guard of every copy, as written in the source, is the EXACT test (it fires on a zero range and on no
+    other, however small); with it the scale is always finite, 0 for a constant objective and the exact reciprocal otherwise
+    (the entry attaining the maximum is mapped to 1); measuring an objective in another unit (entries and range times any
+    c <> 0, e.g. 2^-40) leaves every normalised entry unchanged; the normalised entry is (x*s - min)/range *)
+Theorem C19_kernel_guard_and_scale : all_copies (fun K =>
+  (forall m, t_guard K m = true <-> m == 0) /\
+  (forall m, kern_scale1 K m = Some (kern_scale K m)) /\
+  (forall m, m == 0 -> kern_scale K m == 0) /\
+  (forall m, ~ m == 0 -> t_scaled K (kern_scale K m) m == 1) /\
+  (forall c m x, ~ c == 0 -> t_scaled K (kern_scale K (c * m)) (c * x) == t_scaled K (kern_scale K m) x) /\
+  (forall x s mn range, kern_norm_entry K x s mn range == (if Qeq_bool range 0 then 0 else (x * s - mn) / range))).
+Proof. exact kernel_scale_laws. Qed.
+Print Assumptions C19_kernel_guard_and_scale.
+
+Theorem C19_kernel_guards_exact : forall m,
+  (k_core_guard m = true <-> m == 0) /\ (k_prob_guard m = true <-> m == 0) /\ (k_fn_guard m = true <-> m == 0).
+Proof. exact kernel_guards_exact. Qed.
+Print Assumptions C19_kernel_guards_exact.
+
+(** the selection copies assembled from their generated kernels are the core function, with the documented roles *)
+Theorem C19_kernel_sel_is_core : forall mat sign pref, Forall (fun x => 0 <= x) pref -> Exists (fun x => 0 < x) pref ->
+  tres_eq (kern_body K_prob mat sign pref) (trans_core mat sign pref) /\ tres_eq (kern_body K_fn mat sign pref) (trans_core mat sign pref).
+Proof. exact kern_sel_is_core. Qed.
+Print Assumptions C19_kernel_sel_is_core.
+
+(** [dominates] as written in the source: Pareto dominance on feasible pairs, violation order otherwise *)
+Theorem C19_kernel_dominates_spec : forall o1 c1 o2 c2, length o1 = length o2 ->
+  (c1 <= 0 -> c2 <= 0 -> (k_dominates o1 c1 o2 c2 = true <->
+       Forall2 Qle o1 o2 /\ exists k, (k < length o1)%nat /\ nth k o1 0 < nth k o2 0)) /\
+  (~ (c1 <= 0 /\ c2 <= 0) -> (k_dominates o1 c1 o2 c2 = true <-> c1 < c2)) /\
+  (c1 <= 0 -> ~ c2 <= 0 -> k_dominates o1 c1 o2 c2 = true) /\
+  (~ c1 <= 0 -> c2 <= 0 -> k_dominates o1 c1 o2 c2 = false).
+Proof. exact kern_dominates_spec. Qed.
+Print Assumptions C19_kernel_dominates_spec.
+
+(** the filter re-assembled from the generated loop guard, comparison, weighting and pivot-index expressions terminates,
+    marks only non-dominated points, and every unmarked point is equalled or dominated by a marked one; the comparison with
+    the pivot is strict (a duplicate of the pivot does not survive it) *)
+Theorem C19_kernel_filter : forall m wt fmat, rectm m fmat -> length wt = m ->
+  exists idx, kern_pareto_idx wt fmat = Some idx /\
+    (forall i j, In i idx -> (j < length fmat)%nat ->
+       ~ (Forall2 Qle (nth i (weighted wt fmat) []) (nth j (weighted wt fmat) []) /\
+          exists k, (k < length (nth i (weighted wt fmat) []))%nat /\
+                    nth k (nth i (weighted wt fmat) []) 0 < nth k (nth j (weighted wt fmat) []) 0)) /\
+    (forall i, (i < length fmat)%nat -> ~ In i idx ->
+       exists j, In j idx /\ j <> i /\
+         (Forall2 Qeq (nth i (weighted wt fmat) []) (nth j (weighted wt fmat) []) \/
+          (Forall2 Qle (nth i (weighted wt fmat) []) (nth j (weighted wt fmat) []) /\
+           exists k, (k < length (nth i (weighted wt fmat) []))%nat /\
+                     nth k (nth i (weighted wt fmat) []) 0 < nth k (nth j (weighted wt fmat) []) 0))).
+Proof.
+  intros m wt fmat HR HW. destruct (kern_filter_terminates wt fmat) as [idx E]. exists idx. split; [exact E|]. split.
+  - intros i j. exact (kern_filter_sound m wt fmat idx i j HR HW E).
+  - intros i. exact (kern_filter_complete m wt fmat idx i HR HW E).
+Qed.
+Print Assumptions C19_kernel_filter.
+
+Theorem C19_kernel_pivot_comparison_strict : forall q p, (k_par_better q p = true <-> p < q) /\ k_par_better q q = false.
+Proof. intros q p. split; [apply k_par_better_strict | apply k_par_better_irrefl]. Qed.
+Print Assumptions C19_kernel_pivot_comparison_strict.
+
 (** non-vacuity: concrete values meeting the hypotheses *)
 Example C19_hyps_satisfiable :
   rectm 2 [[1; 2]; [2; 1]; [1; 1]; [2; 1]] /\ length [1; -(1 # 2)] = 2%nat /\ Forall (fun a => 0 < a) [2; 1 # 4] /\
@@ -209,4 +307,16 @@ Example C19_hyps_satisfiable :
   tres_eq (trans_core [[1; 5]; [2; 5]; [4; 5]] [1; 1] [1; 1]) (TFinite [0; 1 # 18; 1 # 2]).
 Proof.
   repeat split; try reflexivity; repeat constructor; try (unfold Qlt, Qle; cbn; lia); try (intro H; discriminate H).
+Qed.
+
+(** the generated kernels on the same values; a change of unit by 2^-40 of the first objective *)
+Example C19_kernel_hyps_satisfiable :
+  kern_pareto_idx [1; 1] [[1; 2]; [2; 1]; [1; 1]; [2; 1]] = Some [0%nat; 1%nat] /\
+  k_dominates [1; 2] 0 [1; 3] (-(1)) = true /\ ~ (1 # 1099511627776) == 0 /\ Forall (fun a => 0 < a) [1 # 1099511627776; 1] /\
+  tres_eq (kern_body K_fn [[1; 5]; [2; 5]; [4; 5]] [1; 1] [1; 1]) (TFinite [0; 1 # 18; 1 # 2]) /\
+  tres_eq (kern_body K_prob (map (fun r => map2 Qmult r [1 # 1099511627776; 1]) [[1; 5]; [2; 5]; [4; 5]]) [1; 1] [1; 1]) (TFinite [0; 1 # 18; 1 # 2]).
+Proof.
+  split; [vm_compute; reflexivity|]. split; [vm_compute; reflexivity|]. split; [intro H; discriminate H|].
+  split; [repeat constructor|].
+  split; vm_compute; repeat constructor.
 Qed.
